@@ -532,11 +532,10 @@ impl<'m> MCTPSMBusContext<'m> {
                                         response_buf,
                                     )
                                     .unwrap();
-                            } else if payload[0] == MCTPSetEndpointIDOperations::ResetEID as u8 {
-                                unimplemented!()
-                            } else if payload[0]
-                                == MCTPSetEndpointIDOperations::SetDiscoveredFlag as u8
-                            {
+                            } else {
+                                // Reset EID (static EIDs are not supported), Set
+                                // Discovered Flag and reserved operations do not
+                                // change the EID
                                 len = self
                                     .get_response()
                                     .set_endpoint_id(
@@ -547,8 +546,6 @@ impl<'m> MCTPSMBusContext<'m> {
                                         response_buf,
                                     )
                                     .unwrap();
-                            } else {
-                                unreachable!()
                             }
                         }
                         CommandCode::GetEndpointID => {
